@@ -266,18 +266,13 @@ def periodicInterruptedOne (b : BusyRef) (t : Task) (ivs : List (Int × Int)) (p
       (match maxD with | some m => [Fml.le t.dVar (.add (numT m) (.sum overlaps))] | none => [])
   | _ => ivs.map (fun iv => Fml.xor (.ge fs (numT iv.2)) (.le (.add fs dur) (numT iv.1)))
 
-/-- the `start` / `end` masks use the variables of the LAST busy interval of the loop (Python scoping) -/
-def periodicInterruptedMasks (busy : List (BusyRef × Task)) (start : Int) (end_ : Option Int) : List Fml :=
-  match busy.getLast? with
-  | some (b, _) =>
-      (if start > 0 then [Fml.le b.e (numT start)] else []) ++
-      (match end_ with | some en => [Fml.ge b.s (numT en)] | none => [])
-  | none => []
-
-def periodicInterruptedAll (busy : List (BusyRef × Task)) (ivs : List (Int × Int)) (period start offset : Int)
+/-- ResourcePeriodicallyInterrupted: the one assertion contributed by a busy interval — the conjunction of its
+    conjuncts, or-ed with the `start` / `end` masks of that same interval (per task since the repair of the
+    last-interval mask; before it one assertion per worker was masked by the variables of the last busy interval) -/
+def periodicInterruptedFml (bt : BusyRef × Task) (ivs : List (Int × Int)) (period start offset : Int)
     (end_ : Option Int) : Fml :=
-  let core := Fml.and (busy.flatMap (fun (b, t) => periodicInterruptedOne b t ivs period offset))
-  if (periodicInterruptedMasks busy start end_).length > 0 then .or (core :: periodicInterruptedMasks busy start end_)
+  let core := Fml.and (periodicInterruptedOne bt.1 bt.2 ivs period offset)
+  if (periodicMasks bt.1 start end_).length > 0 then .or (core :: periodicMasks bt.1 start end_)
   else core
 
 /-- the formulas handed, one by one, to `set_z3_assertions` (or appended directly) by the
@@ -341,7 +336,7 @@ def CBody.raw (c : Nat) : CBody → List Fml
   | .periodicallyUnavailable busy ivs period start offset end_ =>
       ivs.flatMap (fun iv => busy.map (fun b => periodicOne b iv period start offset end_))
   | .periodicallyInterrupted busy ivs period start offset end_ =>
-      [periodicInterruptedAll busy ivs period start offset end_]
+      busy.map (fun bt => periodicInterruptedFml bt ivs period start offset end_)
   | .sameWorkers s1 s2 =>
       (s1.workers.filter (fun w => s2.workers.contains w)).map (fun w =>
         Fml.iff (.bvar (.sel s1.id w)) (.bvar (.sel s2.id w)))
